@@ -67,18 +67,69 @@ def _check(prop, tier, seed, replay, work, t0):
         brief = {k: ev[k] for k in ev if k not in ("held", "reopened")}
         violations.append({"replay": path, "what": "%s: %s | follower afterwards: %s" % (",".join(names), json.dumps(brief)[:600],
                            json.dumps([{k: h[k] for k in ("hist", "left", "right", "readable", "match", "firstBad", "rdbLeft", "rdbSize", "rdbRead", "rdbMatch")} for h in ev.get("held", [])])[:500])})
+    # ---- hand-over end to end: leader A (real RunLeader) feeds the target while follower B (real RunFollower) copies
+    # A's cache over gRPC; A stops, B is promoted and carries on from its copy and the target's stored position
+    ha = vlib.build_driver("hadrv", work)
+    nh = 64 if tier == "quick" else 640
+    hwork = os.path.join(work, "ha")
+    os.makedirs(hwork)
+    cmds = [[ha, "-seed", str(seed), "-n", str(nh), "-work", hwork, "-shard", str(i), "-shards", str(shards),
+             "-out", os.path.join(work, "h%d.ndjson" % i), "-stats", os.path.join(work, "hs%d.json" % i)] for i in range(shards)]
+    for rc, out in vlib.run_parallel(cmds, timeout=6000):
+        if rc != 0:
+            raise vlib.HarnessError("hadrv failed (%d):\n%s" % (rc, out[-3000:]))
+    htrace = os.path.join(work, "ha.ndjson")
+    ha_scen = 0
+    with open(htrace, "w") as w:
+        for i in range(shards):
+            ha_scen += json.load(open(os.path.join(work, "hs%d.json" % i)))["scenarios"]
+            shutil.copyfileobj(open(os.path.join(work, "h%d.ndjson" % i)), w)
+    hviol, htr = vlib.tlc_trace([os.path.join(SPEC, "trace", "TraceE2E.tla")], "TraceE2E", htrace, work, timeout=3000, extra_constants='CONSTANT Prop = "C16"\n')
+    hlines = open(htrace).read().splitlines() if hviol else []
+    reuse = {"full": 0, "continue_from_target_position": 0, "continue_beyond_target_position": 0, "other": 0}
+    for x in open(htrace).read().splitlines():
+        e = json.loads(x)
+        ps = e["psync"][e["psyncBeforeHandover"]:]
+        if not ps:
+            reuse["other"] += 1
+        elif ps[0]["reply"] == "full":
+            reuse["full"] += 1
+        elif ps[0]["off"] - 1 > e["cpAtHandover"]:
+            reuse["continue_beyond_target_position"] += 1
+        elif ps[0]["off"] - 1 == e["cpAtHandover"]:
+            reuse["continue_from_target_position"] += 1
+        else:
+            reuse["other"] += 1
+    for v in hviol:
+        rec = json.loads(hlines[v["line"] - 1])
+        names = sorted(n_ for n_ in v["names"] if n_.startswith(prop + "_"))
+        if not names:
+            continue
+        sig = {"invariant": names[0], "kind": "handover", "backend": "disk"}
+        f = vlib.known_match(prop, sig)
+        if f:
+            known.append(f)
+            continue
+        if len(violations) >= 10:
+            continue
+        path = vlib.save_replay(prop, "h%d" % v["trace"], {"property": prop, "invariants": names, "event": rec})
+        violations.append({"replay": path, "what": "%s (leader hand-over, end to end): txn=%s faults=%s commands=%d initial=%s total=%s lists=%s psync=%s complete=%s" % (
+            ",".join(names), rec["txn"], rec["faults"], rec["ncmds"], rec["initial"], rec["total"], rec["lists"],
+            [(p_["id"], p_["off"] - rec["base"], p_["reply"]) for p_ in rec["psync"]], rec["complete"])})
+    nscen += ha_scen
     samples = [json.loads(x) for x in open(trace).read().splitlines()[:3]]
     for s_ in samples:
         s_.pop("held", None)
         s_.pop("reopened", None)
     cov = {"states": states, "transitions": trans, "traces_validated_against_impl": nscen, "samples": samples, "exhaustive": False,
            "scenarios_by_follower_state": kinds, "trace_events_checked": tr["distinct"],
+           "handover_scenarios": ha_scen, "first_psync_of_promoted_follower": reuse,
            "d_layer_runs": [{"spec": "Replica", "distinct": r["distinct"]}],
            "explanation": "leader caches (log only / snapshot only / snapshot + log, 1 B - 12 KB, several segments) x follower states (empty, prefix, equal, ahead, "
                           "ended before the leader's range, other history with and without the id still in process memory, other history numerically ahead) x "
                           "disk / memory back end, transport failure at the 2nd-7th leader message in a third of the runs, up to 9 KB appended at the leader "
                           "while the follower is connected in half of them; a fifth of the scenarios are raw requests (same / foreign id, offset beyond, at, "
-                          "inside, below the leader's range)"}
+                          "inside, below the leader's range); plus %d end-to-end hand-overs: two real syncer instances (leader with PSYNC client / cache / output, follower copying over gRPC), the leader stops, the follower is promoted and the target's final lists are judged" % ha_scen}
     vlib.write_evidence(prop, tier, seed, "model_checking", cov,
                         ["one protocol round per scenario (the follower is stopped instead of waiting out its 1-3 s back-off)",
                          "the > 10 MiB gap rule of preSync is not reached with these sizes", "leader id change between handshake and sync is emulated by raw requests only"],
